@@ -49,6 +49,9 @@ def make_cells(ck):
             if kern == "tpcn":     # (RWM with the default step budget has a large finite-N error on this target: not a fair cell)
                 cells.append(dict(target="gauss2", N=N, n_total=8 * N, mode="vec", kernel=kern, resample="mult", clustering=False, tkw=dict(half=500.0, rho=0.5)))
     # a run stopped half-way and continued by a new sampler with another particle count (stored batches of different sizes)
+    # dynamic mode with a requested variation so small that every temperature is found by bisection strictly inside (beta_prev, ESS limit)
+    cells.append(dict(target="gauss2", N=128, n_total=1024, mode="vec", kernel="tpcn", resample="mult", clustering=False, volume_variation=0.01))
+    cells.append(dict(target="gauss2", N=128, n_total=1024, mode="vec", kernel="rwm", resample="syst", clustering=False, volume_variation=0.02))
     cells.append(dict(target="gauss2", N=128, n_total=1024, mode="vec", kernel="tpcn", resample="mult", clustering=False, continue_with=512))
     cells.append(dict(target="gauss4", N=128, n_total=1024, mode="vec", kernel="tpcn", resample="syst", clustering=False, xstyle="indexed"))
     return cells
